@@ -191,6 +191,37 @@ func runPlan(t *testing.T, pl *Plan, picker core.Picker) *runOut {
 	return o
 }
 
+// specials: small hand-written models for the parts of post-processing that the corpus
+// hardly touches: views whose let-scopes and anonymous types are shared state of the
+// Parser, and mixins that make it log warnings.  A fresh copy per plan (sources are
+// compared by pointer).
+func specials(seed uint64) []*Source {
+	pad := func(n int) string {
+		var sb strings.Builder
+		for i := 0; i < n; i++ {
+			fmt.Fprintf(&sb, "  !type P%d:\n    next <: P%d\n", i, (i+1)%n)
+		}
+		return sb.String()
+	}
+	n := int(seed % 97)
+	texts := []string{
+		// two applications with a same-named view and let variable
+		"AppA:\n" + pad(n) + "  !view conv(number <: int) -> int:\n    number -> (:\n      let x = 1\n      out = x\n    )\n\n" +
+			"AppB:\n" + pad(97-n) + "  !view conv(number <: int) -> int:\n    number -> (:\n      let x = \"s\"\n      out = x\n    )\n",
+		// an application mixing in one whose view needs an anonymous type
+		"AppA [~abstract]:\n  !view conv(number <: int) -> Some.Type:\n    argName -> <Some.Type> (:\n      let x = .breeds -> <set of>(:\n        breed = -> <M.Breed>(:\n            breedName = .name\n        )\n      )\n    )\n\nAppB:\n  -|> AppA\n" + pad(n) + "\nAppC:\n  -|> AppA\n",
+		// mixins that draw warnings: not abstract, missing, duplicate type
+		fmt.Sprintf("Base%d:\n  !type T:\n    a <: int\n\nUser%d:\n  -|> Base%d\n  -|> Missing%d\n  !type T:\n    b <: int\n  E: ...\n", n, n, n, n),
+		// views with several anonymous types in one application
+		"App:\n  !view a(number <: int) -> Some1.Type:\n    argName -> <Some.Type> (:\n      let x = .breeds -> <set of>(:\n        breed = -> <M.Breed>(:\n            breedName = .name\n        )\n      )\n    )\n\n  !view b(number <: int) -> Some1.Type:\n    argName -> <Some.Type> (:\n      let y = .cats -> <set of>(:\n        cat = -> <M.Cat>(:\n            catName = .name\n        )\n      )\n    )\n",
+	}
+	var out []*Source
+	for i, t := range texts {
+		out = append(out, &Source{Name: fmt.Sprintf("special%d.sysl", i), Files: map[string]string{fmt.Sprintf("special%d.sysl", i): t}})
+	}
+	return out
+}
+
 // foreignTwins: two tiny models that import a byte-identical Swagger document under the
 // same application name but different packages; each result must carry its own package.
 func foreignTwins() []*Source {
@@ -474,7 +505,15 @@ func worker(t *testing.T, c core.Cfg) {
 			k = r.Range(6, 12)
 		}
 		var pool []*Source
-		for i := 0; i < k; i++ {
+		if r.Chance(0.35) {
+			sp := specials(seed)
+			a := sp[r.Intn(len(sp))]
+			pool = append(pool, a, a) // the same special twice, and maybe another one
+			if r.Chance(0.5) {
+				pool = append(pool, sp[r.Intn(len(sp))])
+			}
+		}
+		for i := len(pool); i < k; i++ {
 			switch {
 			case len(pool) > 0 && r.Chance(0.25): // the same source in several tasks
 				pool = append(pool, pool[r.Intn(len(pool))])
